@@ -3,26 +3,29 @@ import p_sync
 from .c15 import RULE, G, P, U, D, S
 
 
-def sc(spec, K, block):
-    return ([("script", list(x)) for x in spec], K, "lasso", (), block, None)
+def sc(spec, K, block, finding=None):
+    return ([("script", list(x)) for x in spec], K, "lasso", (), block, None, finding)
+
+
+TS = "two-stoppers"
 
 
 SCEN = {
     "quick": {
-        "collect x assign-global": sc([[G], [S]], 30, []),
-        "collect x assign-global [two stoppers excluded]": sc([[G], [S]], 26, ["two-stoppers"]),
+        "collect x assign-global": sc([[G], [S]], 30, [], TS),
+        "collect x assign-global [two stoppers excluded]": sc([[G], [S]], 26, ["two-stoppers"], TS),
         "collect x primitive-call": sc([[G], [P]], 28, []),
         "assign-global x spawn": sc([[S], ["spawn"]], 28, []),
         "assign-global x exiting thread": sc([[S], [U]], 28, []),
     },
     "thorough": {
-        "collect x assign-global": sc([[G], [S]], 30, []),
-        "collect x assign-global [two stoppers excluded]": sc([[G], [S]], 40, ["two-stoppers"]),
-        "collect x define-global [two stoppers excluded]": sc([[G], [D]], 40, ["two-stoppers"]),
+        "collect x assign-global": sc([[G], [S]], 30, [], TS),
+        "collect x assign-global [two stoppers excluded]": sc([[G], [S]], 40, ["two-stoppers"], TS),
+        "collect x define-global [two stoppers excluded]": sc([[G], [D]], 40, ["two-stoppers"], TS),
         "collect x primitive-call": sc([[G], [P]], 40, []),
         "assign-global x primitive-call": sc([[S], [P]], 44, []),
         "collect x user-steps": sc([[G], [U, U]], 36, []),
-        "collect x collect": sc([[G], [G]], 40, ["two-stoppers"]),
+        "collect x collect": sc([[G], [G]], 40, ["two-stoppers"], TS),
         "assign-global x spawn": sc([[S], ["spawn"]], 40, []),
         "collect x spawn": sc([[G], ["spawn"]], 36, []),
         "assign-global x exiting thread": sc([[S], [U]], 36, []),
@@ -39,7 +42,7 @@ def _replay(r):
 
 
 def check(pid, tier, seed):
-    return p_sync.check(pid, tier, seed, {"scenarios": SCEN, "finding": "two-stoppers", "replay": _replay})
+    return p_sync.check(pid, tier, seed, {"scenarios": SCEN, "replay": _replay})
 
 
 def replay(pid, path):
